@@ -90,6 +90,9 @@ func ordinalOf(fn *ssa.Function, call ssa.CallInstruction) int {
 // errflowRule runs ERRFLOW over the functions and emits one obligation per error-returning call site.
 func errflowRule(p *core.Program, r *core.Report, rule string, fns []*ssa.Function, sinks func(ssa.CallInstruction) bool) {
 	for _, fn := range fns {
+		if fn.Name() == "Fuzz" && fn.Signature.Results().Len() == 1 && fn.Signature.Results().At(0).Type().String() == "int" {
+			continue // go-fuzz entry point (build tag gofuzz): its int verdict encodes "input rejected", the error is not dropped
+		}
 		sites := eng.ErrSitesWith(fn, sinks)
 		for _, s := range sites {
 			key := fmt.Sprintf("%s/%s#%d", short(fn), trimCallee(s.Callee), ordinalOf(fn, s.Call))
